@@ -8,7 +8,7 @@ import SarpyModel.Spec.XmlFmt
   row     := name ':' tns ':' tloc ':' pns ':' ploc ':' req ':' kind
   kind    := 'p' prim | 'a' prim | 't' prim | 'c' cid | 'l' cid | 'm' prim
            | 'y' cid ':' ctns ':' ctloc ':' pctns ':' pctloc ':' ('-:-' | szns ':' szloc) ':' pszns ':' pszloc ':' min ':' max
-                 ':' ('-' | idxpos) ':' ('-' | label ('.' label)*)
+                 ':' ('-' | idxpos) ':' ('-' | label ('.' label)*) ':' idxlimit
            | 'f' prim ':' ctns ':' ctloc ':' pctns ':' pctloc ':' szns ':' szloc ':' pszns ':' pszloc ':' ixns ':' ixloc ':' base
            | 'q' cid ':' ('-' | wns ':' wloc ':' pwns ':' pwloc)
            | 'n' prim ':' src | 'k' prim ':' const ':' asAttr | 'w' prim ':' ('-' | row '.' const ('/' row '.' const)*)
@@ -63,14 +63,15 @@ def parseKind (k : String) (rest : List String) : Option Kind :=
   | 'y' :: r => do
     let c ← (String.ofList r).toNat?
     match rest with
-    | [a, b, x, y, s, t, ps, pt, mn, mx, ix, lb] => do
+    | [a, b, x, y, s, t, ps, pt, mn, mx, ix, lb, lim] => do
       let a ← a.toNat?; let b ← b.toNat?; let x ← x.toNat?; let y ← y.toNat?
       let sz ← optQ s t
       let ps ← ps.toNat?; let pt ← pt.toNat?; let mn ← mn.toNat?; let mx ← mx.toNat?
       let ix ← if ix == "-" then some none else ix.toNat?.map some
       let lb ← dotted lb
+      let lim ← lim.toNat?
       pure (.array c { childTag := (a, b), pChildTag := (x, y), sizeAttr := sz, pSizeAttr := (ps, pt), minLen := mn, maxLen := mx,
-                       idxPos := ix, idxLabels := lb })
+                       idxPos := ix, idxLabels := lb, idxLimit := lim })
     | _ => none
   | 'f' :: r => do
     let p ← (String.ofList r).toNat?
